@@ -37,6 +37,7 @@ class CEval:
                 self.sync.setdefault(k, []).append(l)
             else:
                 self.comb.setdefault(k, []).append(l)
+        self.connects = [l for l in view.leaves if l.kind == "connect" and l.target is not None and l.value is not None and not l.domain.startswith("sync")]
         self.objs = {str(o): o for o in view.d.objs}
         self.state = {}        # fsm id -> current state name (for FSM-local comb leaves)
         self.missing = set()   # registers read without a value in env (evaluated as 0)
@@ -219,6 +220,24 @@ class CEval:
         if ck in self.busy:
             raise Unresolved("combinational loop through %s" % k)
         leaves = (self.sync if nxt else self.comb).get(k)
+        if not nxt:
+            # record connects: dst.<field> follows src.<field> (forward fields only; `ready` / read-data style fields flow the other way and are not modelled)
+            extra = []
+            for c in self.connects:
+                dk = key(c.target)
+                if k.startswith(dk + ".") and k[len(dk) + 1:].split(".")[-1] not in ("ready", "rddata", "rddata_valid", "ack", "dat_r"):
+                    fld = k[len(dk) + 1:]
+                    om, kp = (c.stmt.omit or set()), c.stmt.keep
+                    if fld.split(".")[0] in om or (kp is not None and fld.split(".")[0] not in kp):
+                        continue
+                    import copy as _c
+                    m = _c.copy(c)
+                    m.kind = "assign"
+                    m.target = t
+                    m.value = Sym(key(c.value) + "." + fld)
+                    extra.append(m)
+            if extra:
+                leaves = sorted(list(leaves or []) + extra, key=lambda l_: l_.order)
         if not leaves:
             if nxt:
                 raise Unresolved("no register driver of %s" % k)
